@@ -6,13 +6,14 @@ From DesVerif Require Import CQueue.Model CQueue.Spec CQueue.SpecProps Timer.Dri
 Import ListNotations.
 Open Scope N_scope.
 
-(* a task as the decoder produces it, restricted to the fragment *)
-Definition init_ok (tk0 : task) : Prop :=
-  Forall frag_step (t_steps tk0) /\ t_cur tk0 = None /\ t_iv tk0 = None /\ t_log tk0 = [] /\
-  t_fin tk0 = false /\ t_mod tk0 < 2.
-
 (* the log the property demands of the task *)
 Definition expected (tk0 : task) : list N := exp_run (t_start tk0) (t_steps tk0).
+
+(* a task as the decoder produces it, restricted to the fragment; all its deadlines are finite
+   (below SimTime::MAX = TMAX, i.e. 2^62 - 1 ns: a Sleep with deadline SimTime::MAX never elapses) *)
+Definition init_ok (tk0 : task) : Prop :=
+  Forall frag_step (t_steps tk0) /\ t_cur tk0 = None /\ t_iv tk0 = None /\ t_log tk0 = [] /\
+  t_fin tk0 = false /\ t_mod tk0 < 2 /\ Forall (fun x => x < TMAX) (expected tk0).
 
 Definition unspawned (tk : task) : Prop := t_cur tk = None /\ t_fin tk = false.
 
@@ -81,7 +82,7 @@ Lemma tstate_cases tk0 tk : tstate tk0 tk -> init_ok tk0 ->
   t_iv tk = None /\ t_mod tk = t_mod tk0 /\ t_start tk = t_start tk0 /\
   (t_cur tk = None \/ exists s, t_cur tk = Some (AwSleep s)).
 Proof.
-  intros [->|s st rest H1 H2 H3 H4 H5 H6 H7 H8 H9|H1 H2 H3 H4 H5 H6 H7] (I1 & I2 & I3 & I4 & I5 & I6).
+  intros [->|s st rest H1 H2 H3 H4 H5 H6 H7 H8 H9|H1 H2 H3 H4 H5 H6 H7] (I1 & I2 & I3 & I4 & I5 & I6 & I7).
   - repeat split; try assumption; try reflexivity. left; exact I2.
   - repeat split; try assumption. right; exists s; exact H5.
   - repeat split; try assumption. left; exact H4.
@@ -125,4 +126,24 @@ Proof.
   intros H. induction H as [|x y l l' Hxy H IH]; intros Hi i; [reflexivity|].
   inversion Hi as [|? ? Hx Hl]; subst. cbn [ready_receivers].
   destruct (tstate_cases _ _ Hxy Hx) as (_ & _ & _ & [Hc|(s & Hc)]); rewrite Hc; cbn [waits_on]; apply IH; exact Hl.
+Qed.
+
+(* the Sleep a task is blocked on has a finite deadline *)
+Lemma blocked_fin tk0 tk s : tstate tk0 tk -> init_ok tk0 -> blocked_sleep tk = Some s -> deadline s < TMAX.
+Proof.
+  intros Hst (_ & I2 & _ & _ & _ & _ & I7) Hbl.
+  assert (Hc : t_cur tk = Some (AwSleep s)).
+  { unfold blocked_sleep in Hbl. destruct (t_cur tk) as [[]|]; try discriminate. injection Hbl as ->. reflexivity. }
+  destruct Hst as [->|s' st rest _ _ _ _ H5 _ _ _ H9|_ _ _ H4 _ _ _].
+  - rewrite I2 in Hc. discriminate.
+  - rewrite H5 in Hc. injection Hc as ->. rewrite Forall_forall in I7. apply I7. rewrite H9. apply in_or_app. right. left. reflexivity.
+  - rewrite H4 in Hc. discriminate.
+Qed.
+
+Lemma base_blocked_fin ts0 ts own nid k tk s : Base ts0 ts own nid -> nth_error ts k = Some tk ->
+  blocked_sleep tk = Some s -> deadline s < TMAX.
+Proof.
+  intros B Hk Hbl. destruct (Forall2_nth _ _ _ _ _ (b_states _ _ _ _ B) Hk) as (tk0 & Hk0 & Hst).
+  apply (blocked_fin tk0 tk s Hst); [|exact Hbl]. pose proof (b_init _ _ _ _ B) as Ha. rewrite Forall_forall in Ha.
+  apply Ha. eapply nth_error_In; exact Hk0.
 Qed.
